@@ -161,6 +161,22 @@ def rt_receiver_names(req):
                             problems.append('wrapper-receiver-name: %s over def plainf(%s, x=5) advertises %s, the call (**%r) -> %s, by hand %s' % (
                                 dl, nm, sig[1] if sig[0] == 'ok' else sig, kw, got, want))
                             break
+    if which in ('all', 'c13'):
+        with warnings.catch_warnings():
+            warnings.simplefilter('ignore')
+            for nm in ('self', 'function', 'functions'):
+                ns = {}
+                exec('def f1(arg, %s=1, k=2): return arg + %s\ndef f2(arg, %s=1, **kwargs): return arg * 2\n' % (nm, nm, nm), ns)
+                c = _try(lambda: wrappers.Combination(ns['f1'], ns['f2']))
+                if c[0] != 'ok':
+                    problems.append('combination-receiver-name: Combination(f1, f2) with a parameter called %s raised %s' % (nm, c[1]))
+                    continue
+                sig = _try(lambda: sigtools.signature(c[1]))
+                got = _try(lambda: c[1](1, **{nm: 5}))
+                want = _try(lambda: ns['f2'](ns['f1'](1, **{nm: 5}), **{nm: 5}))
+                if got != want:
+                    problems.append('combination-receiver-name: Combination(f1, f2) advertises %s; the call (1, %s=5) -> %s, the hand composition -> %s' % (
+                        sig[1] if sig[0] == 'ok' else sig, nm, got, want))
     return ('ok', tuple(problems[:6]), 'receiver_names')
 
 
